@@ -140,6 +140,48 @@ def run_shard(desc):
                     part["violations"].append({"sig": [kind_, kind], "what": detail, "replay": None})
                 else:
                     part["inconclusive"].append("%s: %s" % (kind_, detail))
+    elif kind == "long":
+        # a malformed piece after (or in the middle of) MANY well-formed statements: the statement count is taken around the
+        # sizes a parser may bound or chunk its loops at. The small instance of each shape (3 statements) is judged by R-GRAM;
+        # the long instances differ from it only in the number of repetitions of well-formed statements.
+        STMTS = ["v = 1", "a + 1", "f(2)", "[1, 2]", "x ? 1 : 2", "n ++", "not b", "{1: 2}"]
+        TAILS = ["]", ")", "}", "v + )", "[1 2]", "{1: 2", "(1", ",", ";", "1 +", "* 3", "1.2.3", "f(1 2)", "x ? 1", ": 2", "in", "1..2", "a = "]
+        counts = [3, 64, 255, 256, 257, 1000, 1023, 1024, 1025, 2048, 4096, 10000] + ([] if arg == 0 else [65535, 65536, 65537, 200000])
+        steps, plan = [], []
+        for ci, cnt in enumerate(counts):
+            for ti, tail in enumerate(TAILS):
+                if (ci * len(TAILS) + ti) % nshards != si % nshards:
+                    continue
+                for sep in ("; ", "\n", " ;\n"):
+                    if cnt > 5000 and sep != "; " and ti % 3:
+                        continue
+                    for where in ("end", "middle"):
+                        body = [STMTS[(i + ti) % len(STMTS)] for i in range(cnt)]
+                        if where == "end":
+                            text = sep.join(body) + " ; " + tail
+                            small = sep.join(body[:3]) + " ; " + tail
+                        else:
+                            text = sep.join(body[:cnt // 2]) + " ; " + tail + " ; " + sep.join(body[cnt // 2:])
+                            small = sep.join(body[:1]) + " ; " + tail + " ; " + sep.join(body[1:3])
+                        steps.append({"op": "parse", "text": text})
+                        plan.append((text, small, cnt, tail, where))
+        recs, events, _ = common.run_batch(steps, wd, "long-%d-%s" % (si, profile), profile, timeout=1200)
+        for (text, small, cnt, tail, where), r in zip(plan, recs):
+            if r is None:
+                continue
+            stt, toks = judge_accepted(small)
+            if stt != "out":
+                part["abstained"] += 1
+                continue
+            part["evaluations"] += 1
+            C["wl_long"] = C.get("wl_long", 0) + 1
+            if r.get("p") == "ok":
+                part["violations"].append({"sig": ["accepted-outside-grammar", "long", tail, where], "what": "%d well-formed statements with the malformed piece `%s` at the %s (`%s ...`, %d bytes) are accepted by parse_expression; the 3-statement instance `%s` is not a sentence of the documented grammar" % (cnt, tail, where, text[:60].replace("\n", "\\n"), len(text), small.replace("\n", "\\n")),
+                                           "replay": {"steps": [{"op": "parse", "text": text}], "profile": profile}})
+            else:
+                part["classes"].add("long:%d:%s" % (cnt, where))
+        for kind_, detail, k in events:
+            part["inconclusive"].append("%s: %s" % (kind_, detail))
     elif kind == "special":
         # malformed literals and separators that must be rejected, each also as the very first engine call of a
         # fresh process (lazy initialisation must not change what is accepted)
@@ -248,6 +290,7 @@ def run(rep, tier):
     nt = 1600 if tier == "quick" else 40000
     nc = 16000 if tier == "quick" else 400000
     shards += [("tokfault", i, 0, nt // 16, "release" if i % 2 else "verifdbg") for i in range(16)]
+    shards += [("long", i, 8, 0 if tier == "quick" else 1, "release" if i % 2 else "verifdbg") for i in range(8)]
     shards += [("config", i, 0, 300 if tier == "quick" else 6000, "release" if i % 2 else "verifdbg") for i in range(16)]
     shards += [("corrupt", i, 0, nc // 16, "release" if i % 2 else "verifdbg") for i in range(16)]
     for part in common.pmap(run_shard, shards):
